@@ -22,7 +22,7 @@ import ast
 
 from sa import fields as F
 from sa.fields import is_term, leaves, term_str, Eval, Unrecognised, NONE, ABSENT
-from sa.astutil import where, dump, kwargs_of, field_of, walk_no_nested, strip_us, if_chain
+from sa.astutil import where, dump, kwargs_of, field_of, walk_no_nested, strip_us, if_chain, is_guard
 from sa.model import AnalysisError, body_nodoc, ClassInfo
 
 AXES = ("taxa", "vrnt", "trait")
@@ -571,12 +571,23 @@ def check_dispatch(prog, rep, K, ai):
         fbody = body_nodoc(f.node)
         # the dispatch chain starts at the first If whose test mentions `axis` (elif nesting or sibling Ifs with returning bodies alike)
         first = [k for k, s in enumerate(fbody) if isinstance(s, ast.If) and _axis_test(s.test) is not None]
+        synthetic = None
         if not first:
+            # guard-first layout: `if axis not in self.X_axes: raise ...` followed by the call is the one-branch chain `if axis in self.X_axes: call  else: raise`
+            for k, s_ in enumerate(fbody):
+                if is_guard(s_) and isinstance(s_.test, ast.Compare) and len(s_.test.ops) == 1 and isinstance(s_.test.ops[0], (ast.NotIn, ast.NotEq)):
+                    pos = ast.Compare(left=s_.test.left, ops=[ast.In() if isinstance(s_.test.ops[0], ast.NotIn) else ast.Eq()], comparators=s_.test.comparators)
+                    if _axis_test(pos) is not None:
+                        node_ = ast.If(test=pos, body=fbody[k + 1:], orelse=list(s_.body))
+                        ast.copy_location(node_, s_)
+                        synthetic = ([(pos, fbody[k + 1:], node_)], list(s_.body))
+                        break
+        if not first and synthetic is None:
             rep.unrec("R6-dispatch", construct, "no dispatch chain on `axis` found")
             continue
-        branches, tail = if_chain(fbody, first[0])
+        branches, tail = if_chain(fbody, first[0]) if first else synthetic
         members = {id(b[2]) for b in branches}
-        if any(isinstance(s, ast.If) and _axis_test(s.test) is not None and id(s) not in members for s in fbody):
+        if first and any(isinstance(s, ast.If) and _axis_test(s.test) is not None and id(s) not in members for s in fbody):
             rep.unrec("R6-dispatch", construct, "several dispatch chains")
             continue
         ok = True
